@@ -230,6 +230,6 @@ def run_case(case, rec, ctx):
 
 META = {
     "technique": "history monitor over recorded (configure, formulate) operation sequences executed in fresh processes under several hash seeds, checked offline against the model 'digest = f(reaction, configuration)', plus a snapshot monitor on define_symbols and the DPD functools cache",
-    "level_text": "For 12 fixtures (and synthetic reactions) families of random operation sequences (length 4-30, 1-3 builders sharing the reaction; stable ids, scalar mass, couplings, alignment incl. all DPD reference subsystems, naming flags, dynamics by name/particle/decay/tuple, topology permutation) are replayed in fresh interpreters with PYTHONHASHSEED unset/0/1/42 (thorough: 8 values), also reversed and interleaved; every formulate() is keyed by the configuration read from the builder's state and all observations of one key must have identical per-attribute srepr digests and key order; objects returned by define_symbols and cached DPD results must be unchanged when formulate() returns.",
+    "level_text": "For 12 fixtures (and synthetic reactions) families of random operation sequences (length 4-30, 1-3 builders sharing the reaction; stable ids, scalar mass, couplings, alignment incl. all DPD reference subsystems, naming flags, dynamics by name/particle/decay/tuple, topology permutation) are replayed in fresh interpreters with PYTHONHASHSEED unset/0/1/42 (thorough: 8 values), also reversed and interleaved; every formulate() is keyed by the configuration read from the builder's state and all observations of one key must have identical per-attribute srepr digests and key order; objects returned by define_symbols and cached DPD results must be unchanged when formulate() returns. Every case also contains a walk over the naming flags (single toggles, formulate after each) and a walk over all dynamics builder kinds of one resonance (incl. the flag combinations without convenience function).",
     "level_note": "A configuration is what the builder's public state says (config, naming flags, dynamics map, registered topologies); histories are bounded to 30 operations and 3 builders.",
 }
